@@ -120,7 +120,8 @@ structure IdxInv (W : Nat) (chain : List Block) (floor L j : Nat) (r : Agg) (p :
 
 theorem insertRun_step (W : Nat) (hW : 1 ≤ W) (chain : List Block) (floor L j : Nat) (r : Agg) (p : WinMap) (blk : Block)
     (hi : IdxInv W chain floor L j r p) (hj : j < L) (hb : chain[j]? = some blk) :
-    ∃ r' p', insertRun W r p blk.bloom j = .ok (r', j + 1, p') ∧ IdxInv W chain floor L (j + 1) r' p' := by
+    ∃ r' p', insertRun W r p blk.bloom j = .ok (r', j + 1, p') ∧ IdxInv W chain floor L (j + 1) r' p' ∧
+      (∀ w, (p.lookup w).isSome = true → (p'.lookup w).isSome = true) := by
   have hfj := al_add_mod W j
   have hlt := Nat.mod_lt j (show W > 0 by omega)
   have hin : r.inRange W j = true := by
@@ -141,7 +142,8 @@ theorem insertRun_step (W : Nat) (hW : 1 ≤ W) (chain : List Block) (floor L j 
   · have hcond : (j == r.from_ + (W - 1)) = true := by
       simp only [beq_iff_eq]; rw [hi.from_eq]; omega
     simp only [hcond, if_true]
-    refine ⟨Agg.fresh (j + 1), p.put r.from_ { r with cols := if blk.bloom.isEmpty then r.cols else (j, blk.bloom) :: r.cols }, rfl, ?_⟩
+    refine ⟨Agg.fresh (j + 1), p.put r.from_ { r with cols := if blk.bloom.isEmpty then r.cols else (j, blk.bloom) :: r.cols }, rfl, ?_,
+      (by intro w hw; rw [lookup_put]; split <;> simp_all)⟩
     have hal := al_succ_roll W j hroll
     refine ⟨by simp [Agg.fresh, hal], ?_, ?_, ?_⟩
     · intro b _ h1 _ _ h3 _ _ _
@@ -171,7 +173,7 @@ theorem insertRun_step (W : Nat) (hW : 1 ≤ W) (chain : List Block) (floor L j 
   · have hcond : (j == r.from_ + (W - 1)) = false := by
       simp only [beq_eq_false_iff_ne, ne_eq]; rw [hi.from_eq]; omega
     simp only [hcond, Bool.false_eq_true, if_false]
-    refine ⟨_, p, rfl, ?_⟩
+    refine ⟨_, p, rfl, ?_, fun _ h => h⟩
     have hal := al_succ_same W j (by omega)
     refine ⟨by rw [hal]; exact hi.from_eq, hgb, hi.pers_keys, ?_⟩
     intro w hw hfw hle
@@ -186,25 +188,42 @@ theorem insertRun_step (W : Nat) (hW : 1 ≤ W) (chain : List Block) (floor L j 
       omega
     · exact h
 
-theorem fill_spec (W : Nat) (hW : 1 ≤ W) (chain : List Block) (floor L : Nat) (hL : L ≤ chain.length) (m : Nat) :
-    ∀ (j : Nat) (r : Agg) (nx : Nat) (p : WinMap), j + m = L → floor ≤ j → IdxInv W chain floor L j r p → (m = 0 → nx = j) →
-      ∃ r' p', fill W chain floor (List.range' j m) r nx p = .ok (r', L, p') ∧ IdxInv W chain floor L L r' p' := by
+theorem take_range' (m : Nat) : ∀ (s k : Nat), (List.range' s m).take k = List.range' s (min k m) := by
+  induction m with
+  | zero => intro s k; simp
+  | succ m ih =>
+    intro s k
+    cases k with
+    | zero => simp
+    | succ k =>
+      rw [List.range'_succ, List.take_succ_cons, ih (s + 1) k]
+      have : min (k + 1) (m + 1) = min k m + 1 := by omega
+      rw [this, List.range'_succ]
+
+/-- `m` steps of the fill from block `j`: it does not fail, ends at `j + m`, keeps the index
+invariant relative to the final length `L`, and never removes a persisted window. -/
+theorem fill_spec (W : Nat) (hW : 1 ≤ W) (chain : List Block) (floor hfloor L : Nat) (hL : L ≤ chain.length) (m : Nat) :
+    ∀ (j : Nat) (r : Agg) (nx : Nat) (p : WinMap), j + m ≤ L → hfloor ≤ j → IdxInv W chain floor L j r p → nx = j →
+      ∃ r' p', fill W chain hfloor (List.range' j m) r nx p = .ok (r', j + m, p') ∧ IdxInv W chain floor L (j + m) r' p' ∧
+        (∀ w, (p.lookup w).isSome = true → (p'.lookup w).isSome = true) := by
   induction m with
   | zero =>
-    intro j r nx p hjm _ hi hnx
-    have : j = L := by omega
-    subst this
-    exact ⟨r, p, by simp [fill, hnx rfl], hi⟩
+    intro j r nx p _ _ hi hnx
+    exact ⟨r, p, by simp [fill, hnx], hi, fun _ h => h⟩
   | succ m ih =>
     intro j r nx p hjm hfj hi _
     have hj : j < chain.length := by omega
     have hget : chain[j]? = some chain[j] := List.getElem?_eq_getElem hj
-    obtain ⟨r', p', hrun, hi'⟩ := insertRun_step W hW chain floor L j r p chain[j] hi (by omega) hget
+    obtain ⟨r', p', hrun, hi', hm'⟩ := insertRun_step W hW chain floor L j r p chain[j] hi (by omega) hget
     rw [List.range'_succ]
     unfold fill
-    have hnp : ¬ j + blockHashLag < floor := by omega
+    have hnp : ¬ j < hfloor := by omega
     simp only [hnp, if_false, hget, hrun]
-    exact ih (j + 1) r' (j + 1) p' (by omega) (by omega) hi' (fun _ => rfl)
+    obtain ⟨r2, p2, h1, h2, h3⟩ := ih (j + 1) r' (j + 1) p' (by omega) (by omega) hi' rfl
+    refine ⟨r2, p2, ?_, ?_, fun w hw => h3 w (hm' w hw)⟩
+    · rw [h1]; congr 3; omega
+    · have e : j + 1 + m = j + (m + 1) := by omega
+      rw [← e]; exact h2
 
 /-! ### Chains growing and shrinking -/
 
@@ -245,18 +264,59 @@ theorem chainWF_dropLast (chain : List Block) (h : ChainWF chain) : ChainWF chai
 
 /-! ### The invariant -/
 
-structure Inv (cfg : Cfg) (n : Node) : Prop where
+/-- The part of the invariant that lives in the database (and the cache): it survives a restart,
+a failed write and a failed initialisation. -/
+structure DBInv (cfg : Cfg) (n : Node) : Prop where
   wf : ChainWF n.chain
   bound : n.chain.length < 2 ^ 64
-  next_eq : n.next = n.chain.length
   floor_lt : n.floor = 0 ∨ n.floor < n.chain.length
-  idx : IdxInv cfg.W n.chain n.floor n.chain.length n.chain.length n.running n.persisted
+  hfloor_le : n.hfloor ≤ n.floor
+  pers_keys : ∀ w a, (w, a) ∈ n.persisted →
+    a.from_ = w ∧ w % cfg.W = 0 ∧ w + cfg.W ≤ n.chain.length ∧ Good n.chain cfg.W n.floor w a
+  pers_avail : ∀ w, w % cfg.W = 0 → al cfg.W n.floor ≤ w → w + cfg.W ≤ n.chain.length →
+    ∃ a, n.persisted.lookup w = some a
   cache : ∀ w a, (w, a) ∈ n.cache → w % cfg.W = 0 ∧ w + cfg.W ≤ n.chain.length ∧ Good n.chain cfg.W n.floor w a
   snap : ∀ a nx, n.snapshot = some (a, nx) →
     nx ≤ n.chain.length ∧ a.from_ = al cfg.W nx ∧ GoodBelow n.chain cfg.W n.floor a nx
 
+/-- The full invariant: the database part, and the in-memory running filter is initialised and
+is exactly the window of the chain length. -/
+structure Inv (cfg : Cfg) (n : Node) : Prop where
+  db : DBInv cfg n
+  live : n.initErr = none
+  next_eq : n.next = n.chain.length
+  from_eq : n.running.from_ = al cfg.W n.chain.length
+  running : GoodBelow n.chain cfg.W n.floor n.running n.chain.length
+
+theorem Inv.wf {cfg : Cfg} {n : Node} (h : Inv cfg n) : ChainWF n.chain := h.db.wf
+theorem Inv.bound {cfg : Cfg} {n : Node} (h : Inv cfg n) : n.chain.length < 2 ^ 64 := h.db.bound
+theorem Inv.floor_lt {cfg : Cfg} {n : Node} (h : Inv cfg n) : n.floor = 0 ∨ n.floor < n.chain.length := h.db.floor_lt
+theorem Inv.cache {cfg : Cfg} {n : Node} (h : Inv cfg n) :
+    ∀ w a, (w, a) ∈ n.cache → w % cfg.W = 0 ∧ w + cfg.W ≤ n.chain.length ∧ Good n.chain cfg.W n.floor w a := h.db.cache
+theorem Inv.snap {cfg : Cfg} {n : Node} (h : Inv cfg n) :
+    ∀ a nx, n.snapshot = some (a, nx) →
+      nx ≤ n.chain.length ∧ a.from_ = al cfg.W nx ∧ GoodBelow n.chain cfg.W n.floor a nx := h.db.snap
+theorem Inv.idx {cfg : Cfg} {n : Node} (h : Inv cfg n) :
+    IdxInv cfg.W n.chain n.floor n.chain.length n.chain.length n.running n.persisted :=
+  ⟨h.from_eq, h.running, h.db.pers_keys, h.db.pers_avail⟩
+
+theorem Inv.mk' {cfg : Cfg} {n : Node} (wf : ChainWF n.chain) (bound : n.chain.length < 2 ^ 64)
+    (next_eq : n.next = n.chain.length) (floor_lt : n.floor = 0 ∨ n.floor < n.chain.length)
+    (idx : IdxInv cfg.W n.chain n.floor n.chain.length n.chain.length n.running n.persisted)
+    (cache : ∀ w a, (w, a) ∈ n.cache → w % cfg.W = 0 ∧ w + cfg.W ≤ n.chain.length ∧ Good n.chain cfg.W n.floor w a)
+    (snap : ∀ a nx, n.snapshot = some (a, nx) →
+      nx ≤ n.chain.length ∧ a.from_ = al cfg.W nx ∧ GoodBelow n.chain cfg.W n.floor a nx)
+    (hfl : n.hfloor ≤ n.floor) (live : n.initErr = none) : Inv cfg n :=
+  ⟨⟨wf, bound, floor_lt, hfl, idx.pers_keys, idx.pers_avail, cache, snap⟩, live, next_eq, idx.from_eq, idx.running⟩
+
+theorem effFloor_eq {cfg : Cfg} {n : Node} (h : DBInv cfg n) : effFloor n = n.floor := by
+  unfold effFloor
+  rcases h.floor_lt with h' | h'
+  · rw [h']; split <;> rfl
+  · simp [h']
+
 theorem inv_init (cfg : Cfg) (hW : 1 ≤ cfg.W) : Inv cfg Node.init := by
-  refine ⟨?_, by simp [Node.init], rfl, Or.inl rfl, ⟨?_, ?_, ?_, ?_⟩, ?_, ?_⟩
+  refine Inv.mk' ?_ (by simp [Node.init]) rfl (Or.inl rfl) ⟨?_, ?_, ?_, ?_⟩ ?_ ?_ (Nat.le_refl _) rfl
   · intro blk h; simp [Node.init] at h
   · simp [Node.init, Agg.fresh, al]
   · intro b _ _ _ _ h3 _ _ _; simp [Node.init] at h3
@@ -267,7 +327,7 @@ theorem inv_init (cfg : Cfg) (hW : 1 ≤ cfg.W) : Inv cfg Node.init := by
 
 theorem inv_servable (cfg : Cfg) (hW : 1 ≤ cfg.W) (n : Node) (h : Inv cfg n) (hi : Nat) (hhi : hi < n.chain.length) :
     Servable cfg n hi ∧ CacheGood cfg n n.cache := by
-  refine ⟨⟨?_, ?_⟩, fun w a hm => (h.cache w a hm).2.2⟩
+  refine ⟨⟨h.live, ?_, ?_⟩, fun w a hm => (h.cache w a hm).2.2⟩
   · exact good_of_goodBelow n.chain cfg.W n.floor n.running n.chain.length h.idx.running (Or.inl (Nat.le_refl _))
   · intro w hw hfw hle hne
     rw [h.idx.from_eq] at hne
@@ -293,11 +353,11 @@ theorem store_inv (cfg : Cfg) (hW : 1 ≤ cfg.W) (n : Node) (blk : Block) (h : I
     obtain ⟨h1, h2, h3, h4⟩ := h.idx.pers_keys w a hm
     exact ⟨h1, h2, by omega, good_append _ _ _ _ _ _ h4 h3⟩
   have hget : (n.chain ++ [blk])[n.chain.length]? = some blk := by simp
-  obtain ⟨r', p', hrun, hi'⟩ := insertRun_step cfg.W hW (n.chain ++ [blk]) n.floor (n.chain.length + 1) n.chain.length
+  obtain ⟨r', p', hrun, hi', _⟩ := insertRun_step cfg.W hW (n.chain ++ [blk]) n.floor (n.chain.length + 1) n.chain.length
     n.running n.persisted blk hidx (by omega) hget
   unfold store
-  simp only [hrun]
-  refine ⟨by first | rfl | trivial, ?_, ?_, ?_, ?_, ?_, ?_, ?_⟩
+  simp only [h.live, hrun]
+  refine ⟨by first | rfl | trivial, Inv.mk' ?_ ?_ ?_ ?_ ?_ ?_ ?_ h.db.hfloor_le rfl⟩
   · intro x hx
     simp only [List.mem_append, List.mem_singleton] at hx
     rcases hx with hx | hx
@@ -325,9 +385,17 @@ def RevertGuard (cfg : Cfg) (n : Node) : Prop :=
   (cfg.fixSnap = true ∨ ∀ a nx, n.snapshot = some (a, nx) → nx < n.chain.length) ∧
   (cfg.fixPersist = true ∨ n.chain.length % cfg.W ≠ 0)
 
-/-- The new head stays at or above the retention floor (a pruning node cannot reorganise below
-what it retains). -/
+/-- The new head stays at or above the retention floor (the pruner only prunes below the L1 head
+minus its retention, and blocks at or below the L1 head are not reorganised). -/
 def RevertAboveFloor (n : Node) : Prop := n.floor = 0 ∨ n.floor + 1 < n.chain.length
+
+theorem revertFinish_above (cfg : Cfg) (m : Node) (h1 : m.floor ≤ m.chain.length - 1) (h2 : m.hfloor ≤ m.chain.length - 1) :
+    revertFinish cfg m =
+      ({ m with chain := m.chain.dropLast,
+                snapshot := if cfg.fixSnap then none else m.snapshot,
+                cache := if cfg.fixCache then [] else m.cache }, none) := by
+  unfold revertFinish
+  rw [Nat.min_eq_left h1, Nat.min_eq_left h2]
 
 theorem revert_inv (cfg : Cfg) (hW : 1 ≤ cfg.W) (n : Node) (h : Inv cfg n) (hne : n.chain ≠ [])
     (hg : RevertGuard cfg n) (hfl : RevertAboveFloor n) : (revert cfg n).2 = none ∧ Inv cfg (revert cfg n).1 := by
@@ -383,8 +451,9 @@ theorem revert_inv (cfg : Cfg) (hW : 1 ≤ cfg.W) (n : Node) (h : Inv cfg n) (hn
       · simp [hf] at hgs
       · have := hgs a nx hs
         exact ⟨by omega, h2, goodBelow_dropLast _ _ _ _ _ h3⟩
+  have hhf : n.hfloor ≤ n.floor := h.db.hfloor_le
   unfold revert
-  simp only [hemp, Bool.false_eq_true, if_false, hflo, hcross]
+  simp only [hemp, Bool.false_eq_true, if_false, hflo, h.live, hcross]
   by_cases hm : n.chain.length % cfg.W = 0
   · -- the revert re-opens the previous window
     simp only [hm, decide_true, if_true]
@@ -405,13 +474,13 @@ theorem revert_inv (cfg : Cfg) (hW : 1 ≤ cfg.W) (n : Node) (h : Inv cfg n) (hn
         some { prev with cols := prev.cols.filter (fun c => c.1 != pred64 n.next) } := by
       simp [Agg.clear, hin]
     obtain ⟨hcf, hct⟩ := test_clear cfg.W prev _ _ hclr
-    simp only [hclr, revertFinish]
+    simp only [hclr, revertFinish, Nat.min_eq_left hflo', Nat.min_eq_left (show n.hfloor ≤ n.chain.length - 1 by omega)]
     have hfp : cfg.fixPersist = true := by
       rcases hgp with h' | h'
       · exact h'
       · exact absurd hm h'
     simp only [hfp, if_true]
-    refine ⟨by first | rfl | trivial, chainWF_dropLast _ h.wf, by simp; omega, by simp [hcur], hfloorD, ⟨?_, ?_, ?_, ?_⟩, ?_, hsnap⟩
+    refine ⟨by first | rfl | trivial, Inv.mk' (chainWF_dropLast _ h.wf) (by simp; omega) (by simp [hcur]) hfloorD ⟨?_, ?_, ?_, ?_⟩ ?_ hsnap hhf rfl⟩
     · show prev.from_ = al cfg.W n.chain.dropLast.length
       rw [hlenD, al_pred_cross cfg.W _ hW hm hlen, hp1]
     · intro b x h1 h2 hfb h3 hb it hit
@@ -458,7 +527,7 @@ theorem revert_inv (cfg : Cfg) (hW : 1 ≤ cfg.W) (n : Node) (h : Inv cfg n) (hn
         some { n.running with cols := n.running.cols.filter (fun c => c.1 != pred64 n.next) } := by
       simp [Agg.clear, hin]
     obtain ⟨hcf, hct⟩ := test_clear cfg.W n.running _ _ hclr
-    simp only [hclr, revertFinish]
+    simp only [hclr, revertFinish, Nat.min_eq_left hflo', Nat.min_eq_left (show n.hfloor ≤ n.chain.length - 1 by omega)]
     have hcomp : ∀ w, w % cfg.W = 0 → w + cfg.W ≤ n.chain.length → w + cfg.W ≤ n.chain.length - 1 := by
       intro w hw hle
       rcases Nat.lt_or_ge (w + cfg.W) n.chain.length with h' | h'
@@ -466,7 +535,7 @@ theorem revert_inv (cfg : Cfg) (hW : 1 ≤ cfg.W) (n : Node) (h : Inv cfg n) (hn
       · exfalso
         have : n.chain.length = w + cfg.W := by omega
         rw [this, Nat.add_mod_right] at hm; exact hm hw
-    refine ⟨by first | rfl | trivial, chainWF_dropLast _ h.wf, by simp; omega, by simp [hcur], hfloorD, ⟨?_, ?_, ?_, ?_⟩, ?_, hsnap⟩
+    refine ⟨by first | rfl | trivial, Inv.mk' (chainWF_dropLast _ h.wf) (by simp; omega) (by simp [hcur]) hfloorD ⟨?_, ?_, ?_, ?_⟩ ?_ hsnap hhf rfl⟩
     · show n.running.from_ = al cfg.W n.chain.dropLast.length
       rw [hlenD, al_pred_same cfg.W _ hW hm, hfrom]
     · intro b x h1 h2 hfb h3 hb it hit
@@ -489,17 +558,19 @@ theorem revert_inv (cfg : Cfg) (hW : 1 ≤ cfg.W) (n : Node) (h : Inv cfg n) (hn
 
 /-! ### snapshot write -/
 
-theorem snap_inv (cfg : Cfg) (n : Node) (h : Inv cfg n) : Inv cfg (snap n) := by
-  refine ⟨h.wf, h.bound, h.next_eq, h.floor_lt, h.idx, h.cache, ?_⟩
+theorem snap_inv (cfg : Cfg) (n : Node) (h : Inv cfg n) : (snap n).2 = none ∧ Inv cfg (snap n).1 := by
+  unfold snap
+  simp only [h.live]
+  refine ⟨by first | rfl | trivial, Inv.mk' h.wf h.bound h.next_eq h.floor_lt h.idx h.cache ?_ h.db.hfloor_le rfl⟩
   intro a nx hs
-  simp only [snap, Option.some.injEq, Prod.mk.injEq] at hs
+  simp only [Option.some.injEq, Prod.mk.injEq] at hs
   obtain ⟨rfl, rfl⟩ := hs
   rw [h.next_eq]
   exact ⟨Nat.le_refl _, h.idx.from_eq, h.idx.running⟩
 
 /-! ### pruning -/
 
-theorem prune_inv (cfg : Cfg) (hW : 1 ≤ cfg.W) (n : Node) (k : Nat) (h : Inv cfg n) : Inv cfg (prune cfg n k) := by
+theorem prune_dbinv (cfg : Cfg) (hW : 1 ≤ cfg.W) (n : Node) (k : Nat) (h : DBInv cfg n) : DBInv cfg (prune cfg n k) := by
   unfold prune
   split
   · exact h
@@ -508,10 +579,12 @@ theorem prune_inv (cfg : Cfg) (hW : 1 ≤ cfg.W) (n : Node) (k : Nat) (h : Inv c
     obtain ⟨⟨_, hk1⟩, hk2⟩ := hc
     have hmono : n.floor ≤ k := by omega
     have halk : al cfg.W n.floor ≤ al cfg.W k := al_mono _ _ _ hmono
-    refine ⟨h.wf, h.bound, h.next_eq, Or.inr hk2, ⟨h.idx.from_eq, ?_, ?_, ?_⟩, ?_, ?_⟩
-    · exact goodBelow_floor_mono _ _ _ _ _ _ h.idx.running hmono
+    refine ⟨h.wf, h.bound, Or.inr hk2, ?_, ?_, ?_, ?_, ?_⟩
+    · show max n.hfloor (k - blockHashLag) ≤ k
+      have := h.hfloor_le
+      exact Nat.max_le.mpr ⟨by omega, Nat.sub_le _ _⟩
     · intro w a hm
-      obtain ⟨h1, h2, h3, h4⟩ := h.idx.pers_keys w a (List.mem_filter.mp hm).1
+      obtain ⟨h1, h2, h3, h4⟩ := h.pers_keys w a (List.mem_filter.mp hm).1
       exact ⟨h1, h2, h3, good_floor_mono _ _ _ _ _ _ h4 hmono⟩
     · intro w hw (hfw : al cfg.W k ≤ w) (hle : w + cfg.W ≤ n.chain.length)
       have hq : (fun x : Nat => !decide (x < k - k % cfg.W)) w = true := by
@@ -521,13 +594,29 @@ theorem prune_inv (cfg : Cfg) (hW : 1 ≤ cfg.W) (n : Node) (k : Nat) (h : Inv c
       have := lookup_filter_key n.persisted (fun x => !decide (x < k - k % cfg.W)) w hq
       show ∃ a, (n.persisted.filter (fun x => !decide (x.1 < k - k % cfg.W))).lookup w = some a
       rw [this]
-      exact h.idx.pers_avail w hw (by omega) hle
+      exact h.pers_avail w hw (by omega) hle
     · intro w a hm
       obtain ⟨h1, h2, h3⟩ := h.cache w a hm
       exact ⟨h1, h2, good_floor_mono _ _ _ _ _ _ h3 hmono⟩
     · intro a nx hs
       obtain ⟨h1, h2, h3⟩ := h.snap a nx hs
       exact ⟨h1, h2, goodBelow_floor_mono _ _ _ _ _ _ h3 hmono⟩
+
+theorem prune_mem (cfg : Cfg) (n : Node) (k : Nat) :
+    (prune cfg n k).chain = n.chain ∧ (prune cfg n k).running = n.running ∧ (prune cfg n k).next = n.next ∧
+    (prune cfg n k).initErr = n.initErr ∧ (n.floor ≤ (prune cfg n k).floor) := by
+  unfold prune; split
+  · exact ⟨rfl, rfl, rfl, rfl, Nat.le_refl _⟩
+  · rename_i hc
+    simp only [Bool.or_eq_true, decide_eq_true_eq, not_or, Nat.not_le] at hc
+    exact ⟨rfl, rfl, rfl, rfl, by show n.floor ≤ k; omega⟩
+
+theorem prune_inv (cfg : Cfg) (hW : 1 ≤ cfg.W) (n : Node) (k : Nat) (h : Inv cfg n) : Inv cfg (prune cfg n k) := by
+  obtain ⟨e1, e2, e3, e4, e5⟩ := prune_mem cfg n k
+  refine ⟨prune_dbinv cfg hW n k h.db, by rw [e4]; exact h.live, by rw [e3, e1]; exact h.next_eq,
+    by rw [e2, e1]; exact h.from_eq, ?_⟩
+  rw [e1, e2]
+  exact goodBelow_floor_mono _ _ _ _ _ _ h.running e5
 
 /-! ### queries only move persisted windows into the cache -/
 
@@ -545,24 +634,26 @@ theorem loadWindow_cacheFrom (cfg : Cfg) (n : Node) (cache : WinMap) (w : Nat) (
     (h : loadWindow cfg n cache w = .ok (a, cache')) : CacheFrom n cache cache' := by
   unfold loadWindow at h
   split at h
-  · cases h; exact fun x hx => Or.inl hx
+  · cases h
   · split at h
-    · rename_i a0 hl
-      cases h
-      intro x hx
-      rcases mem_put cache w a x hx with h' | h'
-      · subst h'; exact Or.inl (lookup_mem _ _ _ hl)
-      · exact Or.inl h'
+    · cases h; exact fun x hx => Or.inl hx
     · split at h
-      · cases h
-      · rename_i a0 hp
-        split at h
+      · rename_i a0 hl
+        cases h
+        intro x hx
+        rcases mem_put cache w a x hx with h' | h'
+        · subst h'; exact Or.inl (lookup_mem _ _ _ hl)
+        · exact Or.inl h'
+      · split at h
         · cases h
-        · cases h
-          intro x hx
-          rcases mem_lruAdd cfg.cap cache w a x hx with h' | h'
-          · subst h'; exact Or.inr hp
-          · exact Or.inl h'
+        · rename_i a0 hp
+          split at h
+          · cases h
+          · cases h
+            intro x hx
+            rcases mem_lruAdd cfg.cap cache w a x hx with h' | h'
+            · subst h'; exact Or.inr hp
+            · exact Or.inl h'
 
 theorem scanWindows_cacheFrom (cfg : Cfg) (n : Node) (f : Filter) (chunk limit start to : Nat) (ws : List Nat) :
     ∀ (cache : WinMap) (acc : List Emitted) (skip sc : Nat),
@@ -603,14 +694,21 @@ theorem events_cacheFrom (cfg : Cfg) (n : Node) (f : Filter) (fromB toB : Nat) (
         · exact canonical_cacheFrom cfg n f chunk limit _ _ _
         · exact fun x hx => Or.inl hx
 
-theorem query_inv (cfg : Cfg) (n : Node) (f : Filter) (fromB toB : Nat) (tok : Option Token) (chunk limit : Nat)
-    (h : Inv cfg n) : Inv cfg (query cfg n f fromB toB tok chunk limit).1 := by
-  refine ⟨h.wf, h.bound, h.next_eq, h.floor_lt, h.idx, ?_, h.snap⟩
+theorem query_node (cfg : Cfg) (n : Node) (f : Filter) (fromB toB : Nat) (tok : Option Token) (chunk limit : Nat) :
+    (query cfg n f fromB toB tok chunk limit).1 = { n with cache := (events cfg n f fromB toB tok chunk limit).2 } := rfl
+
+theorem query_dbinv (cfg : Cfg) (n : Node) (f : Filter) (fromB toB : Nat) (tok : Option Token) (chunk limit : Nat)
+    (h : DBInv cfg n) : DBInv cfg (query cfg n f fromB toB tok chunk limit).1 := by
+  refine ⟨h.wf, h.bound, h.floor_lt, h.hfloor_le, h.pers_keys, h.pers_avail, ?_, h.snap⟩
   intro w a hm
   rcases events_cacheFrom cfg n f fromB toB tok chunk limit (w, a) hm with h' | h'
   · exact h.cache w a h'
-  · obtain ⟨_, h2, h3, h4⟩ := h.idx.pers_keys w a (lookup_mem _ _ _ h')
+  · obtain ⟨_, h2, h3, h4⟩ := h.pers_keys w a (lookup_mem _ _ _ h')
     exact ⟨h2, h3, h4⟩
+
+theorem query_inv (cfg : Cfg) (n : Node) (f : Filter) (fromB toB : Nat) (tok : Option Token) (chunk limit : Nat)
+    (h : Inv cfg n) : Inv cfg (query cfg n f fromB toB tok chunk limit).1 :=
+  ⟨query_dbinv cfg n f fromB toB tok chunk limit h.db, h.live, h.next_eq, h.from_eq, h.running⟩
 
 /-! ### restart -/
 
@@ -749,43 +847,55 @@ theorem rebuild_cont (W : Nat) (hW : 1 ≤ W) (p : WinMap) (floor len : Nat) (hl
     refine ⟨hal.symm, by omega, hwl, ?_, Or.inl hal.symm⟩
     rw [hal]; exact al_eq_self W _ (by rw [Nat.add_mod_right]; exact hw0)
 
-/-- The initialiser succeeds on every state that satisfies the invariant and re-establishes its
-index part. -/
-theorem initRunning_spec (cfg : Cfg) (hW : 1 ≤ cfg.W) (n : Node) (h : Inv cfg n) :
-    ∃ r p, initRunning cfg n = .ok (r, n.chain.length, p) ∧
-      IdxInv cfg.W n.chain n.floor n.chain.length n.chain.length r p := by
-  unfold initRunning
+/-- The initialiser, stopped after `k` blocks of its fill (`k > length`: not stopped), on every
+state whose DATABASE part satisfies the invariant: it does not fail, the filter it has built so far
+and the windows it has written satisfy the index invariant up to the block it reached, and no
+persisted window was lost. -/
+theorem initUpTo_spec (cfg : Cfg) (hW : 1 ≤ cfg.W) (n : Node) (h : DBInv cfg n) (k : Nat) :
+    ∃ r j p, initRunningUpTo cfg n k = .ok (r, j, p) ∧ j ≤ n.chain.length ∧ (n.chain.length < k → j = n.chain.length) ∧
+      IdxInv cfg.W n.chain n.floor n.chain.length j r p ∧
+      (∀ w, (n.persisted.lookup w).isSome = true → (p.lookup w).isSome = true) := by
+  have hef := effFloor_eq h
+  unfold initRunningUpTo
   split
   · rename_i h0
-    refine ⟨Agg.fresh 0, n.persisted, by rw [h0], ?_⟩
-    refine ⟨by simp [Agg.fresh, al, h0], ?_, h.idx.pers_keys, h.idx.pers_avail⟩
+    refine ⟨Agg.fresh 0, 0, n.persisted, rfl, Nat.zero_le _, fun _ => h0.symm, ?_, fun _ h => h⟩
+    refine ⟨by simp [Agg.fresh, al], ?_, h.pers_keys, fun w hw hfw hle => h.pers_avail w hw hfw (by omega)⟩
     intro b _ _ _ _ h3 _ _ _; omega
   · rename_i latest hl
     have hflo : n.floor ≤ latest := by
       rcases h.floor_lt with h' | h' <;> omega
-    have hreb : ∃ r p, rebuild cfg n latest = .ok (r, n.chain.length, p) ∧
-        IdxInv cfg.W n.chain n.floor n.chain.length n.chain.length r p := by
+    have hhf := h.hfloor_le
+    have hreb : ∃ r j p, rebuild cfg n latest k = .ok (r, j, p) ∧ j ≤ n.chain.length ∧ (n.chain.length < k → j = n.chain.length) ∧
+        IdxInv cfg.W n.chain n.floor n.chain.length j r p ∧
+        (∀ w, (n.persisted.lookup w).isSome = true → (p.lookup w).isSome = true) := by
       unfold rebuild
       dsimp only
+      rw [hef]
       have hc := rebuild_cont cfg.W hW n.persisted n.floor n.chain.length (by omega) (by omega)
-        (fun w a hm => let ⟨_, h2, h3, _⟩ := h.idx.pers_keys w a hm; ⟨h2, h3⟩) h.idx.pers_avail
+        (fun w a hm => let ⟨_, h2, h3, _⟩ := h.pers_keys w a hm; ⟨h2, h3⟩) h.pers_avail
       have e : (n.chain.length - 1) / cfg.W = latest / cfg.W := by rw [hl]; simp
       rw [e] at hc
       obtain ⟨hws, hc1, hc2, hc3, hc4⟩ := hc
       generalize continueFrom cfg.W n.floor (findAnchor cfg.W n.persisted (n.floor / cfg.W) (latest / cfg.W)) = cont at *
       simp only [hws]
-      have := fill_spec cfg.W hW n.chain n.floor n.chain.length (Nat.le_refl _) (latest + 1 - cont)
-        cont (Agg.fresh (al cfg.W n.chain.length)) cont n.persisted
-        (by omega) hc1
+      rw [take_range']
+      have hmle : cont + min k (latest + 1 - cont) ≤ n.chain.length := by
+        have := Nat.min_le_right k (latest + 1 - cont); omega
+      obtain ⟨r', p', h1, h2, h3⟩ := fill_spec cfg.W hW n.chain n.floor n.hfloor n.chain.length (Nat.le_refl _)
+        (min k (latest + 1 - cont)) cont (Agg.fresh (al cfg.W n.chain.length)) cont n.persisted hmle (by omega)
         ⟨by simp [Agg.fresh, hc3],
          (by
-          intro b _ h1 _ hfb h3 _ _ _
-          simp only [Agg.fresh] at h1
+          intro b _ g1 _ hfb g3 _ _ _
+          simp only [Agg.fresh] at g1
           rcases hc4 with h' | h' <;> omega),
-         h.idx.pers_keys,
-         (fun w hw hfw hle' => h.idx.pers_avail w hw hfw (by omega))⟩
-        (fun _ => rfl)
-      exact this
+         h.pers_keys,
+         (fun w hw hfw hle' => h.pers_avail w hw hfw (by omega))⟩
+        rfl
+      refine ⟨r', _, p', h1, hmle, ?_, h2, h3⟩
+      intro hk
+      have : min k (latest + 1 - cont) = latest + 1 - cont := Nat.min_eq_right (by omega)
+      rw [this]; omega
     cases hs : n.snapshot with
     | none => simpa using hreb
     | some sn =>
@@ -795,14 +905,16 @@ theorem initRunning_spec (cfg : Cfg) (hW : 1 ≤ cfg.W) (n : Node) (h : Inv cfg 
       by_cases hc1 : nx = latest + 1
       · have : (nx == latest + 1) = true := by simpa using hc1
         simp only [this, if_true]
-        refine ⟨inner, n.persisted, by rw [hc1, hl], ?_⟩
         have hnx : nx = n.chain.length := by omega
-        exact ⟨by rw [h2, hnx], by rw [← hnx]; exact h3, h.idx.pers_keys, h.idx.pers_avail⟩
+        refine ⟨inner, nx, n.persisted, rfl, by omega, fun _ => hnx, ?_, fun _ h => h⟩
+        rw [hnx]
+        exact ⟨by rw [h2, hnx], by rw [← hnx]; exact h3, h.pers_keys, h.pers_avail⟩
       · have : (nx == latest + 1) = false := by simpa using hc1
         simp only [this, Bool.false_eq_true, if_false]
         by_cases hc2 : (decide (nx ≤ latest) && decide (latest ≤ inner.from_ + (cfg.W - 1))) = true
         · simp only [hc2, if_true]
           simp only [Bool.and_eq_true, decide_eq_true_eq] at hc2
+          rw [hef]
           have hj : al cfg.W (max nx n.floor) = al cfg.W nx := by
             rcases Nat.le_total n.floor nx with h' | h'
             · rw [Nat.max_eq_left h']
@@ -810,50 +922,90 @@ theorem initRunning_spec (cfg : Cfg) (hW : 1 ≤ cfg.W) (n : Node) (h : Inv cfg 
               have := al_le cfg.W nx
               apply al_unique cfg.W _ _ (al_mod cfg.W nx) (by omega)
               rw [← h2]; omega
-          have := fill_spec cfg.W hW n.chain n.floor n.chain.length (Nat.le_refl _) (latest + 1 - max nx n.floor)
-            (max nx n.floor) inner (max nx n.floor) n.persisted
-            (by have := Nat.le_max_left nx n.floor; have := Nat.max_le.mpr ⟨hc2.1, hflo⟩; omega)
-            (Nat.le_max_right _ _)
+          have hmx : max nx n.floor ≤ latest := Nat.max_le.mpr ⟨hc2.1, hflo⟩
+          rw [take_range']
+          have hmle : max nx n.floor + min k (latest + 1 - max nx n.floor) ≤ n.chain.length := by
+            have := Nat.min_le_right k (latest + 1 - max nx n.floor); omega
+          obtain ⟨r', p', g1, g2, g3⟩ := fill_spec cfg.W hW n.chain n.floor n.hfloor n.chain.length (Nat.le_refl _)
+            (min k (latest + 1 - max nx n.floor)) (max nx n.floor) inner (max nx n.floor) n.persisted hmle
+            (by have := Nat.le_max_right nx n.floor; omega)
             ⟨by rw [h2, hj],
              (by
-              intro b x g1 g2 gf g3 gb it hit
+              intro b x q1 q2 qf q3 qb it hit
               rcases Nat.lt_or_ge b nx with g | g
-              · exact h3 b x g1 g2 gf g gb it hit
+              · exact h3 b x q1 q2 qf g qb it hit
               · exfalso
                 rcases Nat.le_total n.floor nx with h' | h'
-                · rw [Nat.max_eq_left h'] at g3; omega
-                · rw [Nat.max_eq_right h'] at g3; omega),
-             h.idx.pers_keys,
-             (fun w hw hfw hle' => h.idx.pers_avail w hw hfw (by
-               have := Nat.max_le.mpr ⟨hc2.1, hflo⟩; omega))⟩
-            (fun _ => rfl)
-          exact this
+                · rw [Nat.max_eq_left h'] at q3; omega
+                · rw [Nat.max_eq_right h'] at q3; omega),
+             h.pers_keys,
+             (fun w hw hfw hle' => h.pers_avail w hw hfw (by omega))⟩
+            rfl
+          refine ⟨r', _, p', g1, hmle, ?_, g2, g3⟩
+          intro hk
+          have : min k (latest + 1 - max nx n.floor) = latest + 1 - max nx n.floor := Nat.min_eq_right (by omega)
+          rw [this]; omega
         · simp only [hc2, Bool.false_eq_true, if_false]
           exact hreb
 
-theorem restart_inv (cfg : Cfg) (hW : 1 ≤ cfg.W) (n : Node) (h : Inv cfg n) :
+theorem initRunning_spec (cfg : Cfg) (hW : 1 ≤ cfg.W) (n : Node) (h : DBInv cfg n) :
+    ∃ r p, initRunning cfg n = .ok (r, n.chain.length, p) ∧
+      IdxInv cfg.W n.chain n.floor n.chain.length n.chain.length r p := by
+  obtain ⟨r, j, p, h1, _, h3, h4, _⟩ := initUpTo_spec cfg hW n h (n.chain.length + 1)
+  have hj := h3 (by omega)
+  subst hj
+  exact ⟨r, p, h1, h4⟩
+
+/-- Whatever the in-memory state was, after a (re-)initialisation from a sound database the full
+invariant holds. `c` is the cache that is kept (`reinit`) or emptied (`restart`). -/
+theorem init_inv (cfg : Cfg) (n : Node) (h : DBInv cfg n) (r : Agg) (p c : WinMap)
+    (hidx : IdxInv cfg.W n.chain n.floor n.chain.length n.chain.length r p)
+    (hc : ∀ w a, (w, a) ∈ c → (w, a) ∈ n.cache) :
+    Inv cfg { n with running := r, next := n.chain.length, persisted := p, cache := c, initErr := none } :=
+  Inv.mk' h.wf h.bound rfl h.floor_lt hidx (fun w a hm => h.cache w a (hc w a hm)) h.snap h.hfloor_le rfl
+
+theorem restart_inv' (cfg : Cfg) (hW : 1 ≤ cfg.W) (n : Node) (h : DBInv cfg n) :
     (restart cfg n).2 = none ∧ Inv cfg (restart cfg n).1 := by
   obtain ⟨r, p, hinit, hidx⟩ := initRunning_spec cfg hW n h
   unfold restart
   simp only [hinit]
-  refine ⟨by first | rfl | trivial, h.wf, h.bound, rfl, h.floor_lt, hidx, ?_, h.snap⟩
-  intro w a hm; simp at hm
+  exact ⟨by first | rfl | trivial, init_inv cfg n h r p [] hidx (fun w a hm => by simp at hm)⟩
 
-/-- A reset of the in-memory filter (after a failed write) keeps the invariant. -/
-theorem reinit_inv (cfg : Cfg) (hW : 1 ≤ cfg.W) (n : Node) (h : Inv cfg n) : Inv cfg (reinit cfg n) := by
+theorem restart_inv (cfg : Cfg) (hW : 1 ≤ cfg.W) (n : Node) (h : Inv cfg n) :
+    (restart cfg n).2 = none ∧ Inv cfg (restart cfg n).1 := restart_inv' cfg hW n h.db
+
+/-- A reset of the in-memory filter (after a failed write) re-establishes the invariant from the
+database alone. -/
+theorem reinit_inv' (cfg : Cfg) (hW : 1 ≤ cfg.W) (n : Node) (h : DBInv cfg n) : Inv cfg (reinit cfg n) := by
   obtain ⟨r, p, hinit, hidx⟩ := initRunning_spec cfg hW n h
   unfold reinit
   simp only [hinit]
-  refine ⟨h.wf, h.bound, rfl, h.floor_lt, hidx, ?_, h.snap⟩
-  intro w a hm
-  obtain ⟨h1, h2, h3⟩ := h.cache w a hm
-  exact ⟨h1, h2, h3⟩
+  exact init_inv cfg n h r p n.cache hidx (fun _ _ hm => hm)
 
-/-! ### Histories -/
+theorem reinit_inv (cfg : Cfg) (hW : 1 ≤ cfg.W) (n : Node) (h : Inv cfg n) : Inv cfg (reinit cfg n) :=
+  reinit_inv' cfg hW n h.db
+
+/-- A crash inside the initialiser (after any number `k` of fill steps, with whatever windows it
+had written by then) leaves a database from which a clean restart recovers. -/
+theorem crash_in_init_dbinv (cfg : Cfg) (hW : 1 ≤ cfg.W) (n : Node) (h : DBInv cfg n) (k : Nat) (r : Agg) (j : Nat) (p : WinMap)
+    (hk : initRunningUpTo cfg n k = .ok (r, j, p)) : DBInv cfg { n with persisted := p } := by
+  obtain ⟨r', j', p', h1, _, _, h4, h5⟩ := initUpTo_spec cfg hW n h k
+  rw [hk] at h1
+  cases h1
+  refine ⟨h.wf, h.bound, h.floor_lt, h.hfloor_le, h4.pers_keys, ?_, h.cache, h.snap⟩
+  intro w hw hfw hle
+  obtain ⟨a, ha⟩ := h.pers_avail w hw hfw hle
+  have := h5 w (by rw [ha]; rfl)
+  cases hp : p.lookup w with
+  | none => rw [hp] at this; cases this
+  | some a' => exact ⟨a', rfl⟩
+
+/-! ### Histories, faults included -/
 
 /-- What a step needs: stored blocks carry a header bloom covering their events and heights fit
 `uint64`; a revert keeps the head at or above the retention floor and (for the code before the
-repairs only) satisfies `RevertGuard`. -/
+repairs only) satisfies `RevertGuard`. Failed commits, failed initialisations and crashes inside
+the initialiser need nothing. -/
 def StepOK (cfg : Cfg) (n : Node) : Op → Prop
   | .store blk => (∀ it ∈ blk.items, it ∈ blk.bloom) ∧ n.chain.length + 1 < 2 ^ 64
   | .revert => RevertGuard cfg n ∧ RevertAboveFloor n
@@ -863,35 +1015,89 @@ def HistOK (cfg : Cfg) : Node → List Op → Prop
   | _, [] => True
   | n, op :: ops => StepOK cfg n op ∧ HistOK cfg (step cfg n op) ops
 
-theorem step_inv (cfg : Cfg) (hW : 1 ≤ cfg.W) (n : Node) (op : Op) (h : Inv cfg n) (hok : StepOK cfg n op) :
-    Inv cfg (step cfg n op) := by
-  cases op with
-  | store blk => exact (store_inv cfg hW n blk h hok.1 hok.2).2
-  | revert =>
-    by_cases hne : n.chain = []
-    · have : (revert cfg n).1 = reinit cfg n := by simp [revert, hne]
-      simp only [step, this]; exact reinit_inv cfg hW n h
-    · exact (revert_inv cfg hW n h hne hok.1 hok.2).2
-  | snap => exact snap_inv cfg n h
-  | restart => exact (restart_inv cfg hW n h).2
-  | query f a b t c l => exact query_inv cfg n f a b t c l h
-  | prune k => exact prune_inv cfg hW n k h
+/-- The invariant of histories with faults: the database part always; the full invariant whenever
+the running filter is initialised (no remembered initialisation error). -/
+def Weak (cfg : Cfg) (n : Node) : Prop := DBInv cfg n ∧ (n.initErr = none → Inv cfg n)
 
-theorem run_inv (cfg : Cfg) (hW : 1 ≤ cfg.W) (ops : List Op) : ∀ (n : Node), Inv cfg n → HistOK cfg n ops →
-    Inv cfg (run cfg n ops) := by
+theorem weak_of_inv {cfg : Cfg} {n : Node} (h : Inv cfg n) : Weak cfg n := ⟨h.db, fun _ => h⟩
+
+theorem step_weak (cfg : Cfg) (hW : 1 ≤ cfg.W) (n : Node) (op : Op) (h : Weak cfg n) (hok : StepOK cfg n op) :
+    Weak cfg (step cfg n op) := by
+  obtain ⟨hdb, hinv⟩ := h
+  cases hi : n.initErr with
+  | none =>
+    have h := hinv hi
+    cases op with
+    | store blk => exact weak_of_inv (store_inv cfg hW n blk h hok.1 hok.2).2
+    | revert =>
+      by_cases hne : n.chain = []
+      · have : (revert cfg n).1 = reinit cfg n := by simp [revert, hne]
+        simp only [step, this]; exact weak_of_inv (reinit_inv cfg hW n h)
+      · exact weak_of_inv (revert_inv cfg hW n h hne hok.1 hok.2).2
+    | snap => exact weak_of_inv (snap_inv cfg n h).2
+    | restart => exact weak_of_inv (restart_inv cfg hW n h).2
+    | query f a b t c l => exact weak_of_inv (query_inv cfg n f a b t c l h)
+    | prune k => exact weak_of_inv (prune_inv cfg hW n k h)
+    | storeFail blk => exact weak_of_inv (reinit_inv cfg hW n h)
+    | revertFail => exact weak_of_inv (reinit_inv cfg hW n h)
+    | restartFault =>
+      refine ⟨⟨hdb.wf, hdb.bound, hdb.floor_lt, hdb.hfloor_le, hdb.pers_keys, hdb.pers_avail, ?_, hdb.snap⟩, ?_⟩
+      · intro w a hm; simp [step] at hm
+      · intro hn; simp [step] at hn
+    | restartCrash k =>
+      simp only [step]
+      split
+      · rename_i r j p hk
+        exact weak_of_inv (restart_inv' cfg hW _ (crash_in_init_dbinv cfg hW n hdb k r j p hk)).2
+      · exact weak_of_inv (restart_inv cfg hW n h).2
+  | some e =>
+    cases op with
+    | store blk =>
+      have : (store cfg n blk).1 = reinit cfg n := by simp [store, hi]
+      simp only [step, this]; exact weak_of_inv (reinit_inv' cfg hW n hdb)
+    | revert =>
+      have : (revert cfg n).1 = reinit cfg n := by
+        unfold revert; simp only [hi]; split <;> (try rfl); split <;> rfl
+      simp only [step, this]; exact weak_of_inv (reinit_inv' cfg hW n hdb)
+    | snap =>
+      have : (snap n).1 = n := by simp [snap, hi]
+      simp only [step, this]; exact ⟨hdb, fun hn => by rw [hi] at hn; cases hn⟩
+    | restart => exact weak_of_inv (restart_inv' cfg hW n hdb).2
+    | query f a b t c l =>
+      refine ⟨query_dbinv cfg n f a b t c l hdb, fun hn => ?_⟩
+      have : (query cfg n f a b t c l).1.initErr = n.initErr := rfl
+      simp only [step] at hn; rw [this, hi] at hn; cases hn
+    | prune k =>
+      refine ⟨prune_dbinv cfg hW n k hdb, fun hn => ?_⟩
+      simp only [step] at hn; rw [(prune_mem cfg n k).2.2.2.1, hi] at hn; cases hn
+    | storeFail blk => exact weak_of_inv (reinit_inv' cfg hW n hdb)
+    | revertFail => exact weak_of_inv (reinit_inv' cfg hW n hdb)
+    | restartFault =>
+      refine ⟨⟨hdb.wf, hdb.bound, hdb.floor_lt, hdb.hfloor_le, hdb.pers_keys, hdb.pers_avail, ?_, hdb.snap⟩, ?_⟩
+      · intro w a hm; simp [step] at hm
+      · intro hn; simp [step] at hn
+    | restartCrash k =>
+      simp only [step]
+      split
+      · rename_i r j p hk
+        exact weak_of_inv (restart_inv' cfg hW _ (crash_in_init_dbinv cfg hW n hdb k r j p hk)).2
+      · exact weak_of_inv (restart_inv' cfg hW n hdb).2
+
+theorem run_weak (cfg : Cfg) (hW : 1 ≤ cfg.W) (ops : List Op) : ∀ (n : Node), Weak cfg n → HistOK cfg n ops →
+    Weak cfg (run cfg n ops) := by
   induction ops with
   | nil => intro n h _; exact h
   | cons op ops ih =>
     intro n h hok
-    exact ih (step cfg n op) (step_inv cfg hW n op h hok.1) hok.2
+    exact ih (step cfg n op) (step_weak cfg hW n op h hok.1) hok.2
 
-/-- No operation of a history that satisfies `HistOK` fails (on a non-empty chain). -/
+/-- No operation fails on a node that satisfies the full invariant. -/
 theorem step_no_error (cfg : Cfg) (hW : 1 ≤ cfg.W) (n : Node) (h : Inv cfg n) :
     (∀ blk, StepOK cfg n (.store blk) → (store cfg n blk).2 = none) ∧
     (n.chain ≠ [] → StepOK cfg n .revert → (revert cfg n).2 = none) ∧
-    (restart cfg n).2 = none :=
+    (restart cfg n).2 = none ∧ (snap n).2 = none :=
   ⟨fun blk hok => (store_inv cfg hW n blk h hok.1 hok.2).1,
    fun hne hok => (revert_inv cfg hW n h hne hok.1 hok.2).1,
-   (restart_inv cfg hW n h).1⟩
+   (restart_inv cfg hW n h).1, (snap_inv cfg n h).1⟩
 
 end Juno.C09
